@@ -4,6 +4,10 @@ import json, os
 ROOT = os.path.dirname(os.path.dirname(os.path.abspath(__file__)))
 TRUST = "TLC 1.8 and the CommunityModules Json/IOUtils; the Rust harness (vh) that drives the public API of /repo's crates; rustc/cargo"
 CHECKS = {
+ "C05": ("DESIGN.md section 6 C05",
+         "Func.tla: builder-generated programs around one function (scoped or not; for-in / if-else / return with and without value / recursion in the body; calls with and without output variable, with arguments, in condition position); TLC checks that the goto machine (function call stack with saved scope, return / end function, depth-tagged for-in frames) refines the tree-walking reference in which every call starts afresh and a scoped call is isolated; every emitted program is run on the real SDK and compared (emit trace incl. the argument, final variables); larger random programs are validated by TLC against the reference.",
+         "small-scope exhaustive on programs (<=7 lines quick, <=9 thorough), one function per program; sampled beyond; the property's two open corners are skipped",
+         "TLA+ spec + TLC exhaustive refinement check; spec->impl replay; impl->spec trace validation"),
  "C04": ("DESIGN.md section 6 C04",
          "Flow.tla: a builder generates every well-nested program (if/elseif/else, while, for-in, every keyword spelling incl. canonical names and generic end, value / expression / command / negated-command conditions); TLC checks that the goto machine (transcription of find_commands, the per-construct call stacks, meta caches and the generic-end table) refines the tree-walking interpreter and that the block scan finds the ground-truth structure; every emitted program is run on the real SDK and compared with the reference emit trace and final variables; random programs up to ~120 lines / depth 6 are validated by TLC against the reference.",
          "small-scope exhaustive on programs (<=6 lines quick, <=7 thorough), sampled beyond",
